@@ -6,31 +6,39 @@
 EXTENDS Naturals, Sequences, TLC, Json, IOUtils
 
 Rec == ndJsonDeserialize(IOEnv.TRACE)
-VARIABLES l, skip, run, nviol, nsent, out, finished
-tvars == <<l, skip, run, nviol, nsent, out, finished>>
+VARIABLES l, skip, run, nviol, nsent, out, finished,
+          poisoned,   \* a payload that is invalid for the subscriber's codec was injected and its error is awaited
+          hadPoison
+tvars == <<l, skip, run, nviol, nsent, out, finished, poisoned, hadPoison>>
 
-TraceInit == l = 1 /\ skip = TRUE /\ run = 0 /\ nviol = 0 /\ nsent = 0 /\ out = <<>> /\ finished = FALSE
+TraceInit == l = 1 /\ skip = TRUE /\ run = 0 /\ nviol = 0 /\ nsent = 0 /\ out = <<>> /\ finished = FALSE /\ poisoned = FALSE /\ hadPoison = FALSE
 
-Flag(kind) == /\ PrintT(<<"VIOL", run, l, {"C03"}, kind>>)
-              /\ skip' = TRUE /\ nviol' = nviol + 1 /\ UNCHANGED <<run, nsent, out, finished>>
-Stutter == UNCHANGED <<skip, run, nviol, nsent, out, finished>>
+\* after an injected invalid payload the run also speaks about C14 (an error, never a wrong value -- and
+\* nothing that follows is disturbed)
+Flag(kind) == /\ PrintT(<<"VIOL", run, l, IF hadPoison THEN {"C03", "C14"} ELSE {"C03"}, kind>>)
+              /\ skip' = TRUE /\ nviol' = nviol + 1 /\ UNCHANGED <<run, nsent, out, finished, poisoned, hadPoison>>
+Stutter == UNCHANGED <<skip, run, nviol, nsent, out, finished, poisoned, hadPoison>>
 
 Step(e) ==
     CASE e.ev = "pub_op" ->
             IF e.res # "ok" THEN Flag("publisher_" \o e.op \o "_failed")
             ELSE IF e.i # nsent + 1 THEN Flag("harness_numbering")
-            ELSE nsent' = nsent + 1 /\ UNCHANGED <<skip, run, nviol, out, finished>>
+            ELSE nsent' = nsent + 1 /\ UNCHANGED <<skip, run, nviol, out, finished, poisoned, hadPoison>>
       [] e.ev = "pub_finish_ret" ->
             IF e.res # "ok" THEN Flag("finish_failed")
-            ELSE finished' = TRUE /\ UNCHANGED <<skip, run, nviol, nsent, out>>
+            ELSE finished' = TRUE /\ UNCHANGED <<skip, run, nviol, nsent, out, poisoned, hadPoison>>
       [] e.ev = "sub_item" ->
             IF e.i = Len(out) + 1 /\ e.i <= nsent
-            THEN IF e.eq THEN out' = Append(out, e.i) /\ UNCHANGED <<skip, run, nviol, nsent, finished>>
+            THEN IF e.eq THEN out' = Append(out, e.i) /\ UNCHANGED <<skip, run, nviol, nsent, finished, poisoned, hadPoison>>
                  ELSE Flag("item_value_differs")
             ELSE Flag(IF e.i <= Len(out) THEN "item_duplicated"
                       ELSE IF e.i <= nsent THEN "items_reordered_or_skipped"
                       ELSE "item_never_sent")
-      [] e.ev = "sub_err" -> Flag("subscriber_yielded_error")
+      [] e.ev = "poison" -> poisoned' = TRUE /\ hadPoison' = TRUE /\ UNCHANGED <<skip, run, nviol, nsent, out, finished>>
+      [] e.ev = "poison_unreported" -> Flag("invalid_payload_not_reported_as_an_error")
+      [] e.ev = "sub_err" ->
+            IF poisoned THEN poisoned' = FALSE /\ UNCHANGED <<skip, run, nviol, nsent, out, finished, hadPoison>>
+            ELSE Flag("subscriber_yielded_error")
       [] e.ev = "sub_end" -> Flag("subscriber_stream_ended")
       [] e.ev = "harness_error" -> Flag("no_delivery_at_all")
       [] e.ev = "hung" -> Flag("case_did_not_finish_within_120s")
@@ -40,7 +48,7 @@ Step(e) ==
             ELSE Stutter
       [] OTHER -> Stutter
 
-NewCase(e) == skip' = FALSE /\ run' = e.run /\ nviol' = nviol /\ nsent' = 0 /\ out' = <<>> /\ finished' = FALSE
+NewCase(e) == skip' = FALSE /\ run' = e.run /\ nviol' = nviol /\ nsent' = 0 /\ out' = <<>> /\ finished' = FALSE /\ poisoned' = FALSE /\ hadPoison' = FALSE
 
 TraceNext == /\ l <= Len(Rec) /\ l' = l + 1
              /\ LET e == Rec[l] IN IF e.ev = "case" THEN NewCase(e) ELSE IF skip THEN Stutter ELSE Step(e)
